@@ -125,11 +125,50 @@ func (w byteFaultWriter) WriteByte(b byte) error {
 	return err
 }
 
+// richFaultWriter: the same destination with the whole method set of a bufio.Writer or bytes.Buffer - WriteByte,
+// WriteString and ReadFrom. io.WriteString and io.Copy prefer those methods to Write; whatever goes through them is
+// a write like any other.
+type richFaultWriter struct{ byteFaultWriter }
+
+func (w richFaultWriter) WriteString(s string) (int, error) {
+	n, err := w.faultWriter.Write([]byte(s))
+	if err == nil && n < len(s) {
+		return n, io.ErrShortWrite
+	}
+	return n, err
+}
+
+func (w richFaultWriter) ReadFrom(r io.Reader) (int64, error) {
+	var total int64
+	buf := make([]byte, 512)
+	for {
+		n, rerr := r.Read(buf)
+		if n > 0 {
+			m, werr := w.faultWriter.Write(buf[:n])
+			total += int64(m)
+			if werr != nil {
+				return total, werr
+			}
+			if m < n {
+				return total, io.ErrShortWrite
+			}
+		}
+		if rerr == io.EOF {
+			return total, nil
+		}
+		if rerr != nil {
+			return total, rerr
+		}
+	}
+}
+
 // present wraps fw the way the case asks for
 func present(fw *faultWriter) io.Writer {
 	switch {
 	case fw.flusher:
 		return flushingFaultWriter{fw}
+	case fw.byter && fw.k%2 == 0:
+		return richFaultWriter{byteFaultWriter{fw}}
 	case fw.byter:
 		return byteFaultWriter{fw}
 	}
@@ -316,7 +355,7 @@ func TestC15(t *testing.T) {
 		r.Label("entry:" + c15Entry[entry])
 		r.Label(fmt.Sprintf("writes:%s", bucket(W)))
 		if byter {
-			r.Label("destination offers WriteByte")
+			r.Label("destination offers WriteByte (for even fault positions also WriteString and ReadFrom)")
 		}
 		if strings.Contains(shape, "KiB") {
 			r.Label("one leaf of more than 64 KiB")
